@@ -17,32 +17,22 @@ Theorem C15_status_documented rq g :
   rp_status (respond rq g) = 200 \/ 400 <= rp_status (respond rq g) < 500 \/ rp_status (respond rq g) = 503.
 Proof. exact (status_documented rq g). Qed.
 
-(* A request addressed to an endpoint that takes a body, with that endpoint's method, a content-length within
-   the endpoint's cap, and a content-type that is absent or application/json: if the internal API answers
-   (does not abort) with one of the codes internal.rs can produce, then any answer other than 200 is a JSON
-   error object whose code is one of the documented ones and is not the catch-all UNEXPECTED_ERROR. *)
+(* A request addressed to an endpoint that takes a body, with that endpoint's method and a content-length within
+   the endpoint's cap - whatever its content-type and whatever its body: if the internal API answers (does not
+   abort) with one of the codes internal.rs can produce, then any answer other than 200 is a JSON error object
+   whose code is one of the documented ones and is not the catch-all UNEXPECTED_ERROR.  (Full statement: since the
+   fix 8a3c402 handle_rejection answers warp's UnsupportedMediaType itself; HttpProofs.error_body_needs_media_type_row
+   shows what the answer is without that row.) *)
 Theorem C15_error_body_documented rq g i rt cap len :
   nth_error H_ROUTES i = Some rt ->
   rt_cap rt = Some cap ->
   hfirst_segment (rq_target rq) = rt_name rt ->
   rq_method rq = rt_method rt ->
   rq_clen rq = Some len -> len <= cap ->
-  rq_ctype rq <> CtOther ->
   hinternal_answer rt g ->
   rp_status (respond rq g) <> 200 ->
   exists c, rp_code (respond rq g) = Some c /\ In c HDoc_CODES /\ c <> H_ERR_UNEXPECTED_ERROR.
 Proof. exact (error_body_documented rq g i rt cap len). Qed.
-
-(* The property as stated (no condition on the content-type) is FALSE of the code: warp's
-   UnsupportedMediaType rejection is not handled by handle_rejection, so a request to an existing endpoint,
-   with the right method and an acceptable size, but `Content-Type: text/plain`, is answered 415 with a
-   text/plain body - no JSON error object, no error code.  Witness: hwitness_415 (POST /register, 80 bytes). *)
-Theorem C15_error_body_documented_refuted :
-  exists rq g i rt cap len,
-    nth_error H_ROUTES i = Some rt /\ rt_cap rt = Some cap /\ hfirst_segment (rq_target rq) = rt_name rt /\
-    rq_method rq = rt_method rt /\ rq_clen rq = Some len /\ len <= cap /\ hinternal_answer rt g /\
-    rp_status (respond rq g) <> 200 /\ rp_code (respond rq g) = None.
-Proof. exact error_body_documented_refuted. Qed.
 
 (* Every tonic code a method of the internal API can return (its own Status::new sites and
    check_service_unavailable) has a row of its own in match_status - never the catch-all - and that row's
@@ -89,7 +79,8 @@ Theorem C15_tables_as_documented :
    H_ERR_APPOINTMENT_ALREADY_TRIGGERED; H_ERR_APPOINTMENT_NOT_FOUND; H_ERR_REGISTRATION_RESOURCE_EXHAUSTED] = HDoc_CODES /\
   H_ERR_UNEXPECTED_ERROR = HDoc_UNEXPECTED /\
   H_MATCH_STATUS_DEFAULT = (400, HDoc_UNEXPECTED) /\
-  H_OK_STATUS = 200 /\ H_REJ_BODY_STATUS = 400 /\ H_REJ_API_STATUS = 400.
+  H_OK_STATUS = 200 /\ H_REJ_BODY_STATUS = 400 /\ H_REJ_API_STATUS = 400 /\
+  H_REJ_WARP_ROWS = HDoc_WARP_ROWS.
 Proof. exact tables_as_documented. Qed.
 
 Theorem C15_match_status_as_documented c : hassoc c H_MATCH_STATUS = hdoc_answer c.
@@ -134,7 +125,7 @@ Example C15_ex_missing_field :
              [BodyErr [109;105;115;115;105;110;103;32;102;105;101;108;100;32;96;117;115;101;114;95;105;100;96]%N]) GOk
   = mk_hreply 400 (Some 1) false.
 Proof. vm_compute. reflexivity. Qed.
-(* warp's own rejections: too large 413, no content-length 411, GET on a POST route 405, unknown path 405
+(* warp's own rejections that handle_rejection hands back: too large 413, no content-length 411, GET on a POST route 405, unknown path 405
    (the GET-only ping route turns every unknown POST into "method not allowed"), all without a JSON body *)
 Example C15_ex_warp_rejections :
   respond (mk_hrequest MPost (ex_target HDoc_register) (Some 88) CtJson [BodyOk ex_user_id33]) GOk = mk_hreply 413 None false /\
@@ -143,6 +134,10 @@ Example C15_ex_warp_rejections :
   respond (mk_hrequest MPost (ex_target [120%N]) (Some 0) CtAbsent []) GOk = mk_hreply 405 None false /\
   respond (mk_hrequest MGet (ex_target HDoc_ping) None CtAbsent []) GOk = mk_hreply 200 None false.
 Proof. vm_compute. repeat split; reflexivity. Qed.
+(* an unsupported content-type on an existing endpoint: 415 with the JSON error 'invalid request format' *)
+Example C15_ex_unsupported_media_type :
+  respond (mk_hrequest MPost (ex_target HDoc_register) (Some 80) CtOther [BodyOk ex_user_id33]) GOk = mk_hreply 415 (Some 6) false.
+Proof. vm_compute. reflexivity. Qed.
 (* the catch-all is what an unmapped tonic code (Internal = 13) or a dead handler gets: excluded by hinternal_answer *)
 Example C15_ex_catch_all :
   respond (mk_hrequest MPost (ex_target HDoc_register) (Some 80) CtJson [BodyOk ex_user_id33]) (GErr 13) = mk_hreply 400 (Some 255) true.
@@ -166,7 +161,6 @@ Proof. split; reflexivity. Qed.
 
 Print Assumptions C15_status_documented.
 Print Assumptions C15_error_body_documented.
-Print Assumptions C15_error_body_documented_refuted.
 Print Assumptions C15_internal_codes_mapped.
 Print Assumptions C15_validated_before_unwrap.
 Print Assumptions C15_non200_unchanged.
